@@ -107,6 +107,16 @@ int gen_matrix(const case_t *c, rng_t *r, csc_t *A)
             else { if (j > 0) P(j - 1, j) = 1; }
             if (rng_u01(r) < cdbl(c, "extra", 0.0)) { int_t i = rng_int(r, n); if (!P(i, j)) P(i, j) = 1; }
         }
+    } else if (!strcmp(fam, "chainsdiag")) {
+        /* nchains tridiagonal blocks of order chainlen followed by 1-by-1 blocks: workers that run down the chains request U storage
+           all the time while others sweep through singleton (relaxed) supernodes that only record where the end of U currently is */
+        int_t k = cint(c, "nchains", 4), len = cint(c, "chainlen", 100), lo = 0;
+        for (int_t b = 0; b < k && lo < n; ++b) {
+            int_t hi = lo + len; if (hi > n) hi = n;
+            for (int_t j = lo; j < hi; ++j) { P(j, j) = 2; if (j + 1 < hi) { P(j + 1, j) = 1; P(j, j + 1) = 1; } }
+            lo = hi;
+        }
+        for (int_t j = lo; j < n; ++j) P(j, j) = 2;
     } else if (!strcmp(fam, "ring")) {
         /* a symmetric tridiagonal chain coupled to a periodic ring that carries, besides the symmetric neighbour coupling, a
            one-sided (upwind) entry A(i, i-k around the ring): structurally unsymmetric although every row holds exactly as
